@@ -61,10 +61,19 @@ class HWorld(object):
         self.fn = fn
         self.runner = self.xyz.Runner(fn, var_names="x", fn_args=("a", "b", "c"))
         self.h = None
+        self.percall = bool(variant.get("percall_engine"))
         self.new_session()
 
     def new_session(self):
-        self.h = self.xyz.Harvester(self.runner, self.data_name, engine=self.engine)
+        if self.percall:
+            # the object is built with the other engine; every call names the engine to use
+            other = "h5netcdf" if self.engine == "joblib" else "joblib"
+            self.h = self.xyz.Harvester(self.runner, self.data_name, engine=other)
+        else:
+            self.h = self.xyz.Harvester(self.runner, self.data_name, engine=self.engine)
+
+    def ekw(self):
+        return {"engine": self.engine} if self.percall else {}
 
     def close(self):
         try:
@@ -133,21 +142,21 @@ def do_hstep(w, ev):
                 VER[0] = v
                 if w.variant.get("via_add_ds") and sync:
                     ds = w.runner.run_combos(combos_of(A, B, c), verbosity=0)
-                    w.h.add_ds(ds, overwrite=pol[p], sync=sync)
+                    w.h.add_ds(ds, overwrite=pol[p], sync=sync, **w.ekw())
                 else:
-                    w.h.harvest_combos(combos_of(A, B, c), overwrite=pol[p], sync=sync, verbosity=0)
+                    w.h.harvest_combos(combos_of(A, B, c), overwrite=pol[p], sync=sync, verbosity=0, **w.ekw())
             elif a == "harvest_cases":
                 P, v, p, sync = args
                 VER[0] = v
                 cases = [dict(a=q[0], b=q[1], **({"c": q[2]} if q[2] else {})) for q in P]
-                w.h.harvest_cases(cases, overwrite=pol[p], sync=sync, verbosity=0)
+                w.h.harvest_cases(cases, overwrite=pol[p], sync=sync, verbosity=0, **w.ekw())
             elif a == "save_merge":
                 A, B, c, v, p = args
                 VER[0] = v
                 if w.variant.get("other_harvester"):
                     # the same change of the file made by another live Harvester object (another session / process)
                     other = xyz.Harvester(w.runner, w.data_name, engine=w.engine)
-                    other.harvest_combos(combos_of(A, B, c), overwrite=pol[p], verbosity=0)
+                    other.harvest_combos(combos_of(A, B, c), overwrite=pol[p], verbosity=0)      # (its own engine is the file's)
                 else:
                     ds = w.runner.run_combos(combos_of(A, B, c), verbosity=0)
                     xyz.save_merge_ds(ds, w.data_name, overwrite=pol[p], engine=w.engine)
@@ -171,6 +180,8 @@ def is_conflict(exc):
 
 def replay_h(case, variant, points):
     """Returns (problem, tag, step, notes)."""
+    if variant.get("percall_engine") and any(ev["a"] in ("delete_ds", "expand_dims", "drop_sel") for ev in case["hist"]):
+        variant = dict(variant, percall_engine=False)     # those calls take the engine from the object
     w = HWorld(variant)
     notes = []
     prev = None
@@ -244,8 +255,13 @@ class SWorld(object):
         self.engine = variant.get("engine", "pickle")
         self.data_name = os.path.join(self.tmp, "table." + {"pickle": "pkl", "csv": "csv"}[self.engine])
 
+        nan_point = bool(variant.get("nan_point"))
+        self.nan_point = nan_point
+
         def fn(a, b, k=3):
-            return float(VER[0] * 1000 + 10 * a + b), a - b
+            if nan_point and (a, b) == (2, 2):
+                return float("nan"), float("nan")        # a legitimate result: every output is NaN at this point
+            return float(VER[0] * 1000 + 10 * a + b), float(a - b)
 
         self.fn = fn
         self.runner = self.xyz.Runner(fn, var_names=["x", "d"], fn_args=("a", "b"), constants={"k": 3})
@@ -269,7 +285,11 @@ class SWorld(object):
         for _, r in df.iterrows():
             x = float(r["x"])
             a, b = int(r["a"]), int(r["b"])
-            ok = (int(x) % 1000 == 10 * a + b) and (int(r["d"]) == a - b) and (int(r["k"]) == 3)
+            if math.isnan(x):
+                ok = self.nan_point and (a, b) == (2, 2) and math.isnan(float(r["d"])) and int(r["k"]) == 3
+                out.append([a, b, -2 if ok else -1])      # -2: the all-NaN result of the point (2, 2)
+                continue
+            ok = (int(x) % 1000 == 10 * a + b) and (int(float(r["d"])) == a - b) and (int(r["k"]) == 3)
             out.append([a, b, int(x) // 1000 if ok else -1])
         return out
 
@@ -326,7 +346,9 @@ def replay_s(case, variant):
                 return (label + ": raised %s: %s" % (type(exc).__name__, str(exc)[:300]), "raise", k, notes)
             h = ev["args"][0]
             o = w.observe(h)
-            want = [list(r) for r in post["table"]]
+            def _exp(r):
+                return [r[0], r[1], -2] if (w.nan_point and (r[0], r[1]) == (2, 2)) else list(r)
+            want = [_exp(r) for r in post["table"]]
             if os.path.basename(w.data_name) not in o["listing"]:
                 return (label + ": directory holds %r, the table file is missing" % (o["listing"],), "listing", k, notes)
             if ev["a"] != "session":
@@ -338,7 +360,7 @@ def replay_s(case, variant):
                 if o["disk"][:len(before)] != before:
                     return (label + ": earlier rows changed: %r -> %r" % (before, o["disk"][:len(before)]), "not_append_only", k, notes)
                 new = sorted(o["disk"][len(before):])
-                want_new = sorted([r[0], r[1], ev["args"][2]] for r in ev["args"][1])
+                want_new = sorted(_exp([r[0], r[1], ev["args"][2]]) for r in ev["args"][1])
                 if new != want_new:
                     return (label + ": new rows %r, expected (as a set) %r (-1 marks a row whose outputs do not belong to its arguments)" % (
                         new, want_new), "row_wrong", k, notes)
